@@ -59,10 +59,23 @@ def instances(tier, seed):
                     out.append({"name": "%s-n%d-%s-%s%s" % (enc, n, "full" if full else "more", cls, "-tables" if restrict else ""),
                                 "fn": "decode", "timeout": T, "cost": cost,
                                 "params": {"enc": enc, "n": n, "full": full, "cls": cls, "restrict": restrict}})
+    # history: the same bytes were decoded under ANOTHER encoding (all three naming modes) earlier in the same process;
+    # the result under this encoding must not depend on that
+    for enc in ("utf8", "ascii", "latin1"):
+        for pre in ("utf8", "ascii", "latin1"):
+            if pre == enc:
+                continue
+            for n in (1, 2) if tier == "quick" else (1, 2, 3):
+                for full in (False, True):
+                    if tier == "quick" and not ((n == 1 and full) or (n == 2 and not full and "ascii" not in (enc, pre))):
+                        continue
+                    out.append({"name": "%s-after-%s-n%d-%s" % (enc, pre, n, "full" if full else "more"), "fn": "decode", "timeout": T,
+                                "cost": 5, "params": {"enc": enc, "n": n, "full": full, "cls": "any", "restrict": None, "pre_enc": pre}})
     return out
 
 
 def witness_instances(fn, lst, tier):
+    lst = [i for i in lst if not i["params"].get("pre_enc")]
     pick = [i for i in lst if i["params"]["n"] in (2, 3) and i["params"]["cls"] in ("esc", "lead2", "lead3")
             and i["params"]["enc"] == "utf8" and (i["params"]["cls"] == "esc" or i["params"]["n"] == (2 if i["params"]["cls"] == "lead2" else 3))]
     return pick[:3] if tier == "quick" else pick
@@ -250,6 +263,9 @@ def decode(b0: int, b1: int, b2: int, b3: int, b4: int, b5: int, b6: int, b7: in
         kind, r = _call(parts[:k], enc, events.Keynames.BYTES, False)
         if kind != "val" or r is not None:
             return True
+    if P.get("pre_enc"):
+        for mode in (events.Keynames.BYTES, events.Keynames.CURTSIES, events.Keynames.CURSES):
+            _call(parts, ENCODINGS[P["pre_enc"]], mode, full)
     if n > RAW["max"]:
         return _fail(1)      # (3) a pending state as long as the longest sequence: the next byte makes get_key raise
     res = {}
@@ -348,6 +364,8 @@ def concrete(fn, params, args):
     _load_raw()
     if fn == "tablecase":
         return _tablecase(params, args)
+    if fn == "charsweep":
+        return _charsweep(params, args)
     enc = ENCODINGS[params["enc"]]
     n, full = params["n"], params["full"]
     bs = list(args[:n])
@@ -360,6 +378,13 @@ def concrete(fn, params, args):
             return {"ok": True, "observed": "not a decoder state", "call": call}
         if r is not None:
             return {"ok": True, "observed": "not a decoder state", "call": call}
+    if params.get("pre_enc"):
+        call += " [after the same call under %s]" % params["pre_enc"]
+        for mode in (events.Keynames.BYTES, events.Keynames.CURTSIES, events.Keynames.CURSES):
+            try:
+                events.get_key(parts, ENCODINGS[params["pre_enc"]], mode, full)
+            except Exception:      # noqa
+                pass
     if n > RAW["max"]:
         return {"ok": False, "observed": "pending state of length %d" % (n - 1), "expected": "no pending state as long as the longest sequence", "call": call}
     res = {}
@@ -463,7 +488,33 @@ def _dbg(conj, B):
             H.NOTES.append("conj %d falsifiable: %s  model %s" % (i, str(c)[:300], s.model()))
 
 
-def extra_concrete_cases():
+def _charsweep(params, args):
+    """every Unicode scalar value in range(lo, hi, step), encoded and driven byte by byte: reported as itself under
+    curtsies and curses naming unless its bytes are a table sequence, and as its bytes under bytes naming"""
+    from curtsies import events
+    lo, hi, step = args
+    enc = ENCODINGS[params["enc"]]
+    gk, KN = events.get_key, events.Keynames
+    keys = RAW["keys"]
+    for cp in range(lo, hi, step):
+        if 0xD800 <= cp <= 0xDFFF:
+            continue
+        ch = chr(cp)
+        try:
+            seq = ch.encode(enc)
+        except UnicodeEncodeError:
+            continue
+        if seq in keys or seq in RAW["pfx_any"]:
+            continue
+        parts = [seq[i:i + 1] for i in range(len(seq))]
+        got = (gk(parts, enc, KN.CURTSIES, False), gk(parts, enc, KN.CURSES, False), gk(parts, enc, KN.BYTES, False))
+        if got != (ch, ch, seq):
+            return {"ok": False, "observed": repr(got), "expected": repr((ch, ch, seq)),
+                    "call": "get_key(%r, %r, <curtsies, curses, bytes>, full=False)" % (parts, enc)}
+    return {"ok": True, "observed": "all reported as themselves", "call": "characters U+%04X..U+%04X step %d under %s" % (lo, hi, step, enc)}
+
+
+def extra_concrete_cases(tier="quick"):
     """every table sequence, driven incrementally on the REAL tables in every encoding, must arrive whole under its
     table name (finite table data: replayed concretely on every run in addition to the symbolic instances)"""
     _load_raw()
@@ -472,6 +523,12 @@ def extra_concrete_cases():
         for enc in ("utf8", "ascii", "latin1"):
             for full in (True, False):
                 out.append(("tablecase", {"enc": enc, "full": full}, list(key)))
+    # every character as itself (C extension boundaries such as unicodedata cannot be explored symbolically): the whole
+    # BMP, the supplementary planes with stride 7 (quick) / completely (thorough); latin-1 and ascii completely
+    out.append(("charsweep", {"enc": "utf8"}, [0, 0x10000, 1]))
+    out.append(("charsweep", {"enc": "utf8"}, [0x10000, 0x110000, 7 if tier == "quick" else 1]))
+    out.append(("charsweep", {"enc": "latin1"}, [0, 256, 1]))
+    out.append(("charsweep", {"enc": "ascii"}, [0, 128, 1]))
     return out
 
 
